@@ -148,6 +148,8 @@ class WorldGen:
                     p = [round((c[0] + f * rad * math.cos(a)) / st) * st, round((c[1] + f * rad * math.sin(a)) / st) * st]
                     pts.append([int(v) if float(v).is_integer() else v for v in p])
             items.append([self.depth_value(lo, hi), pts])
+        if r.random() < 0.4:
+            r.shuffle(items)            # a value without points may come after entries with points (it sets the polygon corners only)
         return items
 
     def maybe(self, d, key, value, p=0.7):
